@@ -25,7 +25,7 @@ type c15 struct{ base }
 
 func init() {
 	core.Register(c15{base{id: "C15", race: true, level: "exploration", quickB: 16, thoroughB: 32,
-		rule:        "groups of 2-24 client sessions (different users; typed result tables in text and binary via simple and extended protocol; extended histories over the same statement/portal names; binary COPY-in; failing queries; oversized messages; on half of the groups a server-registered custom type; a type every connection registers on its own type map in a session middleware, whose codec stamps decoded COPY values with the connection's user; short-lived CancelRequest / SSLRequest / truncated-startup / empty connections before and during the sessions) (some steps prepare statements over a query text shared by all connections of the group, declared through wire.ParseParameters, with per-connection prespecified parameter types) are first served one at a time on a fresh server (solo reference; repeated in reverse order on another fresh server - the two solo runs must agree) and then all at once on another fresh server, 3 (quick) / 5 (thorough) times with different yield-injection seeds at every transport Read/Write; every connection's per-step reply bytes and callback trace must equal its solo run (ParameterStatus compared as a multiset); the binary runs under the Go race detector and any report with a library frame is a violation. Non-trivial = group whose global event order interleaves at least two connections; distinct = hash of the global (connection, event-kind) order observed.",
+		rule:        "groups of 2-24 client sessions (different users; typed result tables in text and binary via simple and extended protocol; extended histories over the same statement/portal names; binary COPY-in; failing queries; oversized messages; on half of the groups a server-registered custom type; a type every connection registers on its own type map in a session middleware, whose codec stamps decoded COPY values with the connection's user; a quarter of the sessions run behind a middleware that detaches the context from the library's (whatever then fails must fail alone and together alike, and must not fall back to state shared with other connections); short-lived CancelRequest / SSLRequest / truncated-startup / empty connections before and during the sessions) (some steps prepare statements over a query text shared by all connections of the group, declared through wire.ParseParameters, with per-connection prespecified parameter types) are first served one at a time on a fresh server (solo reference; repeated in reverse order on another fresh server - the two solo runs must agree) and then all at once on another fresh server, 3 (quick) / 5 (thorough) times with different yield-injection seeds at every transport Read/Write; every connection's per-step reply bytes and callback trace must equal its solo run (ParameterStatus compared as a multiset); the binary runs under the Go race detector and any report with a library frame is a violation. Non-trivial = group whose global event order interleaves at least two connections; distinct = hash of the global (connection, event-kind) order observed.",
 		need:        []string{"per_connection_type_values", "groups", "concurrent_sessions", "steps_compared", "distinct_interleavings", "race_detector_active_batches", "custom_type_rows", "copy_sessions", "solo_order_comparisons"},
 		assumptions: append([]string{"handler programs are deterministic functions of the query text, so a connection's solo transcript is the reference for its concurrent transcript"}, commonAssumptions...)}})
 }
@@ -328,6 +328,8 @@ func c15run(env *hs.Env, s c15session, yield func()) (r c15result, cl *hs.Client
 	return
 }
 
+type c15userKey struct{}
+
 // c15mw: three session middlewares; the first rejects users whose name starts with "reject".
 func c15mw() []wire.OptionFn {
 	var out []wire.OptionFn
@@ -337,8 +339,17 @@ func c15mw() []wire.OptionFn {
 			if i == 0 && strings.HasPrefix(wire.AuthenticatedUsername(ctx), "reject") {
 				return ctx, errors.New("this user is not welcome")
 			}
+			user, _ := ctx.Value(c15userKey{}).(string)
+			if user == "" {
+				user = wire.AuthenticatedUsername(ctx)
+			}
+			if i == 0 && strings.HasPrefix(user, "detach") {
+				// a careless middleware: it builds its result on a fresh context and so drops everything the
+				// library had put into the connection's context (type map, parameters, remote address)
+				ctx = context.WithValue(context.WithValue(context.Background(), hs.ConnKey{}, hs.ConnOf(ctx)), c15userKey{}, user)
+			}
 			if m := wire.TypeMap(ctx); i == 1 && m != nil {
-				m.RegisterType(&pgtype.Type{Name: "verifconn", OID: c15connOID, Codec: c15connCodec{tag: wire.AuthenticatedUsername(ctx)}})
+				m.RegisterType(&pgtype.Type{Name: "verifconn", OID: c15connOID, Codec: c15connCodec{tag: user}})
 			}
 			hs.ConnOf(ctx).CB("mw", i)
 			return ctx, nil
@@ -383,8 +394,11 @@ func (ch c15) Run(c *core.Ctx) {
 		sessions := make([]c15session, n)
 		for i := range sessions {
 			sessions[i] = c15genShared(rng, fmt.Sprintf("g%dc%d", g, i), custom, fmt.Sprintf("s%dg%d", c.Seed, g))
-			if rng.Intn(4) == 0 {
+			switch rng.Intn(8) {
+			case 0, 1:
 				sessions[i].User = "reject_" + sessions[i].User // turned away by the first session middleware
+			case 2, 3:
+				sessions[i].User = "detach_" + sessions[i].User // its middleware detaches the context: whatever then fails, fails alone and together alike
 			}
 		}
 		cs := map[string]any{"group": g, "sessions": n, "custom_type": custom}
@@ -402,6 +416,10 @@ func (ch c15) Run(c *core.Ctx) {
 			if solo[i].Foreign != "" {
 				c.Violate("type-map-isolation", "a value was decoded through another connection's type map (connections served one after another)", solo[i].Foreign, cs)
 				bad = true
+			}
+			if strings.HasPrefix(s.User, "detach") {
+				c.Count("detached_context_sessions", 1)
+				solo[i].RowErrs = nil // without the connection's type map rows cannot be encoded: expected, and the same alone and together
 			}
 			for _, e := range solo[i].RowErrs {
 				c.Violate("custom-type", "row rejected in solo run: "+normErr(e), fmt.Sprintf("group %d session %d kinds %v: %s", g, i, s.Kinds, e), cs)
